@@ -190,7 +190,7 @@ theorem stepNone_ok {o : Oracles} {c e mo mo' : Option Nat} {r : Resolved}
     (mo = none → mo' = some (r.char ^ r.extDeg)) ∧ (∀ n, mo = some n → mo' = some n) ∧
     (∀ n, mo = some n → c = none →
       r.extDeg = orD e 1 ∧ r.char = leastPrimeGe (ceilRoot n (orD e 1))) ∧
-    (∀ n c0, mo = some n → c = some c0 → e = none → o.ceilLog c0 n = .ok r.extDeg ∧ r.char = c0) := by
+    (∀ n c0, mo = some n → c = some c0 → e = none → r.extDeg = clog c0 n ∧ r.char = c0 ∧ 1 < c0 ∧ 0 < n) := by
   unfold stepNone at h
   cases mo with
   | none =>
@@ -216,10 +216,10 @@ theorem stepNone_ok {o : Oracles} {c e mo mo' : Option Nat} {r : Resolved}
       cases e with
       | none =>
         simp only at h0
-        rw [bind_eq_ok] at h0
-        obtain ⟨e2, _, h0⟩ := h0
-        simp only [pure, Except.pure, Except.ok.injEq, Prod.mk.injEq] at h0
-        exact h0.1.symm
+        split at h0
+        · cases h0
+        · simp only [pure, Except.pure, Except.ok.injEq, Prod.mk.injEq] at h0
+          exact h0.1.symm
       | some e0 =>
         simp only [pure, Except.pure, Except.ok.injEq, Prod.mk.injEq] at h0
         exact h0.1.symm
@@ -241,10 +241,11 @@ theorem stepNone_ok {o : Oracles} {c e mo mo' : Option Nat} {r : Resolved}
       simp only [Option.some.injEq] at hn
       subst hn hc he
       simp only at h0
-      rw [bind_eq_ok] at h0
-      obtain ⟨e2, hcl, h0⟩ := h0
-      simp only [pure, Except.pure, Except.ok.injEq, Prod.mk.injEq] at h0
-      obtain ⟨rfl, rfl⟩ := h0
-      exact ⟨hcl, rfl⟩
+      split at h0
+      · cases h0
+      · rename_i hg
+        simp only [pure, Except.pure, Except.ok.injEq, Prod.mk.injEq] at h0
+        obtain ⟨rfl, rfl⟩ := h0
+        refine ⟨rfl, rfl, ?_, ?_⟩ <;> omega
 
 end MpycV.SecFldCfg
